@@ -1,6 +1,6 @@
 (* RenumberProofsDense.v -- C10, part 4: the dense pass of renumber_objects_with. *)
 From LV Require Import Base.Bytes Model.Obj Model.DocQ Model.PageTree Model.Traverse Model.Renumber
-  Spec.RenumberSpec Proofs.RenumberProofsMap Proofs.RenumberProofsTrav Proofs.RenumberProofs.
+  Spec.RenumberSpec Proofs.RenumberProofsMap Proofs.RenumberProofsTrav Proofs.RenumberProofsTravO Proofs.RenumberProofs.
 
 (* the renaming of the dense pass as a function: the k-th id gets number s+k, keeps its generation *)
 Fixpoint dense_fun (ids : list oid) (s : N) (x : oid) : oid :=
@@ -120,10 +120,18 @@ Proof.
 Qed.
 
 (* ---------- the dense pass ---------- *)
+Lemma no_page_fresh ids s : ~ In (no_page s ids) (dense_ids ids s).
+Proof.
+  destruct ids as [|[i0 g0] ids]; cbn [dense_ids no_page snd In]; [tauto|].
+  intros [E|H].
+  - destruct (g0 =? 0)%N eqn:Eg; destruct (s =? 0)%N eqn:Es; cbn [andb] in E; inversion E; subst;
+      try discriminate; cbn in *; congruence.
+  - apply dense_ids_ge in H. destruct ((g0 =? 0) && (s =? 0))%N; cbn [fst] in H; lia.
+Qed.
+
 Section Dense.
   Variable d : rdoc.
   Variable s : N.
-  Variable P : oid -> Prop.
   Let tr := d_trailer (base d).
   Let m := d_objects (base d).
   Let ids := map fst m.
@@ -131,48 +139,61 @@ Section Dense.
 
   Hypothesis Hsorted : sorted_keys m.
   Hypothesis Hfits : (s + N.of_nat n <= U32_MAX + 1)%N.
-  Hypothesis HP_obj : forall x, has_obj m x -> P x.
-  Hypothesis HP_reach : forall x, reach tr m x -> P x.
-  (* an id that is used but names no object lies outside the new range *)
-  Hypothesis Hout : forall x, P x -> ~ has_obj m x -> ~ (s <= fst x < s + N.of_nat n)%N.
 
   Lemma ids_nodup : NoDup ids.
   Proof. apply sorted_nodup. exact Hsorted. Qed.
 
-  Lemma dense_fun_inj : inj_on P (dense_fun ids s).
+  (* the dense renaming is one-to-one on the ids that name objects -- no condition on the document *)
+  Lemma dense_fun_inj : inj_on (has_obj m) (dense_fun ids s).
   Proof.
-    intros a b Pa Pb E. pose proof ids_nodup as ND.
-    assert (Hlen : length ids = n) by (unfold ids, n; apply map_length).
-    destruct (in_dec oid_eq_dec a ids) as [Ha|Ha]; destruct (in_dec oid_eq_dec b ids) as [Hb|Hb].
-    - destruct (In_nth_error _ _ Ha) as [ka Ka]. destruct (In_nth_error _ _ Hb) as [kb Kb].
-      rewrite (dense_fun_nth _ _ _ _ ND Ka), (dense_fun_nth _ _ _ _ ND Kb) in E.
-      inversion E. assert (ka = kb) by lia. subst. congruence.
-    - exfalso. destruct (In_nth_error _ _ Ha) as [ka Ka].
-      rewrite (dense_fun_nth _ _ _ _ ND Ka), (dense_fun_notin _ _ _ Hb) in E.
-      assert (ka < length ids) by (apply nth_error_Some; congruence).
-      apply (Hout b Pb Hb). subst b. cbn [fst]. lia.
-    - exfalso. destruct (In_nth_error _ _ Hb) as [kb Kb].
-      rewrite (dense_fun_nth _ _ _ _ ND Kb), (dense_fun_notin _ _ _ Ha) in E.
-      assert (kb < length ids) by (apply nth_error_Some; congruence).
-      apply (Hout a Pa Ha). subst a. cbn [fst]. lia.
-    - rewrite !dense_fun_notin in E by assumption. exact E.
+    intros a b Ha Hb E. pose proof ids_nodup as ND.
+    destruct (In_nth_error _ _ Ha) as [ka Ka]. destruct (In_nth_error _ _ Hb) as [kb Kb].
+    rewrite (dense_fun_nth _ _ _ _ ND Ka), (dense_fun_nth _ _ _ _ ND Kb) in E.
+    inversion E. assert (ka = kb) by lia. subst. congruence.
   Qed.
 
   Definition dense_max : N :=
     match m with [] => if (s =? 0)%N then 0%N else (s - 1)%N | _ => (s + N.of_nat n - 1)%N end.
 
+  Lemma mem_ids_lookup x : mem_oid x ids = match lookup m x with Some _ => true | None => false end.
+  Proof.
+    destruct (lookup m x) eqn:E.
+    - apply mem_oid_In. eapply lookup_has; eauto.
+    - apply mem_oid_nIn. apply lookup_none. exact E.
+  Qed.
+
+  Lemma dense_action_live r : incl (map fst r) ids -> forall id, dense_action r ids id = live m (rename_of r) id.
+  Proof.
+    intros I id. unfold dense_action, live, rename_of. rewrite mem_ids_lookup. destruct (rlookup r id) as [y|] eqn:E.
+    - apply rlookup_some in E. assert (Hin : In id ids) by (apply I; apply in_map_iff; exists (id, y); auto).
+      destruct (has_lookup m id Hin) as [o ->]. reflexivity.
+    - destruct (lookup m id); reflexivity.
+  Qed.
+
+  Lemma dense_bookmark_live r np : incl (map fst r) ids -> forall p, dense_bookmark r ids np p = live_or m (rename_of r) np p.
+  Proof.
+    intros I id. unfold dense_bookmark, live_or, rename_of. rewrite mem_ids_lookup. destruct (rlookup r id) as [y|] eqn:E.
+    - apply rlookup_some in E. assert (Hin : In id ids) by (apply I; apply in_map_iff; exists (id, y); auto).
+      destruct (has_lookup m id Hin) as [o ->]. reflexivity.
+    - destruct (lookup m id); reflexivity.
+  Qed.
+
+  Lemma renumber_bookmarks_ext f g t : (forall p, f p = g p) -> renumber_bookmarks_with f t = renumber_bookmarks_with g t.
+  Proof. intro H. unfold renumber_bookmarks_with. apply map_ext. intro kb. rewrite H. reflexivity. Qed.
+
   Theorem dense_pass_spec :
     exists d' rho,
       dense_pass s d = Done d' /\
       (forall x, rho x = dense_fun ids s x) /\
-      inj_on P rho /\
-      d_trailer (base d') = rename_dict rho tr /\
-      (forall id, reach tr m id -> lookup (d_objects (base d')) (rho id) = option_map (rename rho) (lookup m id)) /\
-      (forall id, P id -> ~ reach tr m id -> lookup (d_objects (base d')) (rho id) = lookup m id) /\
-      (forall x, reach (d_trailer (base d')) (d_objects (base d')) x <-> exists id, reach tr m id /\ x = rho id) /\
+      inj_on (has_obj m) rho /\
+      d_trailer (base d') = rename_dict_o (live m rho) tr /\
+      (forall id, reach tr m id -> has_obj m id ->
+                  lookup (d_objects (base d')) (rho id) = option_map (rename_o (live m rho)) (lookup m id)) /\
+      (forall id, has_obj m id -> ~ reach tr m id -> lookup (d_objects (base d')) (rho id) = lookup m id) /\
+      (forall x, reach (d_trailer (base d')) (d_objects (base d')) x <-> exists id, reach tr m id /\ has_obj m id /\ x = rho id) /\
       map fst (d_objects (base d')) = dense_ids ids s /\
       d_max_id (base d') = dense_max /\
-      bm_table d' = renumber_bookmarks_with rho (bm_table d) /\
+      bm_table d' = renumber_bookmarks_with (live_or m rho (no_page s ids)) (bm_table d) /\
       bookmarks d' = bookmarks d /\ max_bookmark_id d' = max_bookmark_id d /\
       d_version (base d') = d_version (base d) /\ d_binary_mark (base d') = d_binary_mark (base d).
   Proof.
@@ -180,28 +201,34 @@ Section Dense.
     destruct (dense_replace_ok ids (Some s) (if (s =? 0)%N then 0%N else (s - 1)%N)) as [r [last E]].
     { right. exists s. split; [reflexivity|]. unfold ids. rewrite map_length. exact Hfits. }
     destruct (dense_replace_spec _ _ _ _ _ ND E) as [F [I [N L]]]. cbn [next_val] in F, L.
-    assert (Hinj : inj_on P (rename_of r)).
+    assert (Hinj : inj_on (has_obj m) (rename_of r)).
     { intros a b Pa Pb Eab. rewrite !F in Eab. exact (dense_fun_inj a b Pa Pb Eab). }
     assert (Hhave : forall old, In old (map fst r) -> has_obj m old) by (intros old Ho; apply I; exact Ho).
-    destruct (rekey_spec m r P Hsorted N Hhave HP_obj Hinj) as [m1 [c1 [EM [S2 [Fw Bw]]]]].
+    destruct (rekey_spec m r (has_obj m) Hsorted N Hhave (fun x H => H) Hinj) as [m1 [c1 [EM [S2 [Fw Bw]]]]].
     cbv zeta in S2, Fw, Bw. set (m2 := insert_all c1 m1) in *.
-    destruct (traverse_spec (rename_of r) tr m2 (trav_fuel tr m2) (le_n _)) as [m3 [refs [ET [_ [_ [K3 [In3 Out3]]]]]]].
-    exists {| base := with_objects (base d) (rename_dict (rename_of r) tr) m3 last;
+    set (a := dense_action r ids).
+    assert (Ha : forall id, a id = live m (rename_of r) id) by (apply dense_action_live; exact I).
+    destruct (traverse_o_spec a tr m2 (trav_fuel tr m2) (le_n _)) as [m3 [refs [ET [_ [_ [K3 [In3 Out3]]]]]]].
+    assert (Etr : rename_dict_o a tr = rename_dict_o (live m (rename_of r)) tr) by (apply rename_dict_o_ext; intros; apply Ha).
+    exists {| base := with_objects (base d) (rename_dict_o a tr) m3 last;
               max_bookmark_id := max_bookmark_id d; bookmarks := bookmarks d;
-              bm_table := renumber_bookmarks_with (rename_of r) (bm_table d) |}, (rename_of r).
+              bm_table := renumber_bookmarks_with (dense_bookmark r ids (no_page s ids)) (bm_table d) |}, (rename_of r).
     split.
-    { unfold dense_pass. fold m. fold ids. rewrite E. rewrite EM. fold m2. fold tr. rewrite ET. reflexivity. }
+    { unfold dense_pass. fold m. fold ids. rewrite E. rewrite EM. fold m2. fold tr. fold a. rewrite ET. reflexivity. }
     cbn [base d_trailer d_objects d_max_id with_objects bm_table bookmarks max_bookmark_id d_version d_binary_mark].
-    split; [exact F|]. split; [exact Hinj|]. split; [reflexivity|].
-    split; [intros id Hid; eapply (pass_reachable tr m r P); eauto|].
-    split; [intros id Pid Hid; eapply (pass_unreachable tr m r P); eauto|].
-    split; [intro x; eapply (pass_reach tr m r P); eauto|].
+    split; [exact F|]. split; [exact Hinj|]. split; [exact Etr|].
+    split.
+    { intros id Hid Hh. rewrite (passo_reachable tr m (rename_of r) a Ha m2 Fw m3 In3 id Hid Hh).
+      destruct (lookup m id); cbn [option_map]; [|reflexivity]. f_equal. apply rename_o_ext. intros; apply Ha. }
+    split; [intros id Hh Hid; eapply (passo_unreachable tr m (rename_of r) a); eauto|].
+    split; [intro x; eapply (passo_reach tr m (rename_of r) a); eauto|].
     split.
     { rewrite K3. apply sorted_ext; [exact S2 | apply dense_ids_sorted|]. intro x. rewrite (dense_ids_in ids s x ND). split.
       - intro Hx. destruct (Bw x Hx) as [id [Hid ->]]. exists id. split; [exact Hid | apply F].
       - intros [id [Hid ->]]. rewrite <- F. apply has_obj_lookup. rewrite Fw by exact Hid. apply has_obj_lookup. exact Hid. }
     split.
     { rewrite L. unfold dense_max, ids, n. destruct m; cbn [map length]; [reflexivity|]. rewrite map_length. reflexivity. }
+    split; [apply renumber_bookmarks_ext; apply dense_bookmark_live; exact I|].
     repeat split; reflexivity.
   Qed.
 End Dense.
